@@ -103,7 +103,7 @@ type c13Target struct {
 	// Shard/NShards: this target handles the cuts whose rank in the cut list is Shard mod NShards
 	// (expensive every-offset sweeps are spread over several workers)
 	Shard, NShards int
-	Cleanup      func()
+	Cleanup        func()
 }
 
 func (t *c13Target) name() string {
